@@ -151,5 +151,17 @@ CLAIMS = {
     note="Trusted: sympy, symbolic shims, solve/inv contracts. Sizes fixed (2 interface DOF, 2 q-set modes, 1-3 frequencies), values symbolic. cbtf "
          "precondition from its code: Craig-Bampton form (no b-q stiffness), diagonal q-q blocks. Floats are exact complex numbers. Not covered: the w->0 limit.",
     technique="real functions executed on symbolic inputs; coupling/equilibrium residuals as rational identities (sympy); modular contract for the frequency solver; bounded float coupled-system check; known-finding witness replay"),
+ "C06": dict(
+    text="Proved with the real functions on symbolic inputs (sympy identities): cb.cgmass returns diag(m,m,m,I_cg) and the cg offset for every rigid 6x6 mass "
+         "M=T^T diag(mI,I_cg)T (m, I_cg, offset symbolic); cb.cbtf's solution satisfies every row of M a+B v+K d=(frc on the b-set, 0 on the q-set) with the "
+         "enforced boundary acceleration, v=iWd, a=-W^2 d, incl. 0 Hz and non-ascending boundary sets; cb.cbreorder is the symmetric permutation "
+         "pv=(b,q)/(q,b) (drm: columns), undone by the inverse permutation, for all ordered b-sets of matrices up to order 4; cb.cbconvert scales every "
+         "block by (force-unit factor of the row)x(displacement-unit factor of the column) for a symbolic (length,mass) conversion - mass [mass], first "
+         "moments [mass length], inertia [mass length^2], q-q blocks (fixed-base frequencies) unchanged; m2e and e2m factors reciprocal to 1e-15. "
+         "uset_convert (pandas) and its effect on geometry-based rigid-body modes: bounded float check on generated USET tables. cbcheck's comparison of "
+         "the three rigid-body constructions, effective-mass bookkeeping and grounding numbers are NOT covered.",
+    note="Partial: the eigen/tolerance-based parts of cbcheck are outside what a contract on this code can decide. Trusted: sympy, symbolic shims. "
+         "cbtf precondition from its code (Craig-Bampton form, diagonal q-q blocks). Sizes fixed, values symbolic. Floats are reals.",
+    technique="real functions executed on symbolic inputs against rigid-body/unit-scaling/permutation specifications (sympy identities); exhaustive small-scope permutations; bounded float check for the pandas part"),
 }
 NOT_APPLICABLE = {}
